@@ -19,6 +19,10 @@ class UserKeyError(KeyError):
     pass
 
 
+class UserIndexError(IndexError):
+    pass
+
+
 class UserBaseException(BaseException):
     pass
 
@@ -28,6 +32,7 @@ EXC = {
     'SubFilterException': SubFilterException,
     'UserValueError': UserValueError,
     'UserKeyError': UserKeyError,
+    'UserIndexError': UserIndexError,
     'UserBaseException': UserBaseException,
 }
 USER_EXC = set(EXC)
@@ -37,6 +42,7 @@ CATCH = {
     'FilterOrValue': (FilterException, UserValueError),
     'Exception': Exception,
     'UserKey': UserKeyError,
+    'Lookup': LookupError,
 }
 
 
